@@ -21,7 +21,7 @@ import Verif.Model.Constraints
              the code allow such a name again the model says plain `eng=deny vfy=nc`)
 
   Stage `paths` (source-derived facts, against the tables `issuePaths`, `frontEnds`, `certCreators`):
-      st=paths fn=<function>|*|frontends|creators
+      st=paths fn=<function>|tpl:<function>|*|frontends|creators
     output: the calls of interest of that function in source order (V! G! C R, `?` = unchecked),
             or the comma-separated list
 
@@ -132,6 +132,13 @@ def stepS : Step → String
   | .casCreate => "C"
   | .casRenew => "R"
 
+def tstepS : TStep → String
+  | .define => "def"
+  | .assign f => "=" ++ f
+  | .call n => n
+  | .check g => if g then "G!" else "V!"
+  | .cas r => if r then "R" else "C"
+
 def joinS (l : List String) : String := if l.isEmpty then "-" else ",".intercalate l
 
 /-- stage `paths`: the table entry for one source fact -/
@@ -140,9 +147,14 @@ def evalPaths (fn : String) : String :=
   | "*" => ",".intercalate (issuePaths.map (·.1))
   | "frontends" => joinS frontEnds
   | "creators" => joinS certCreators
-  | f => match issuePaths.find? (·.1 = f) with
-    | some p => " ".intercalate (p.2.map stepS)
-    | none => "not-in-table"
+  | f =>
+    if f.startsWith "tpl:" then
+      match templatePaths.find? (·.1 = (f.drop 4).toString) with
+      | some p => " ".intercalate (p.2.map tstepS)
+      | none => "not-in-table"
+    else match issuePaths.find? (·.1 = f) with
+      | some p => " ".intercalate (p.2.map stepS)
+      | none => "not-in-table"
 
 def eval (line : String) : Option String := do
   let kv := (fields line).filterMap fun f =>
